@@ -171,6 +171,36 @@ def loadEval {α : Type} (f : EvalFile α) : Except Err (EvalRec α) := do
   let r : EvalRec α := { K := f.K, preds := f.preds, obs := f.obs, chains := f.chains, names := names }
   if r.shapeOk then .ok r else .error .valueError
 
+/-! #### one path, several saves
+
+  `save_h5` opens the path with mode "w": the file is truncated and the four datasets are written
+  anew, so what a path holds is the LAST evaluation saved to it.  A path is `Option (EvalFile α)`
+  (`none` = no file). -/
+
+def savePath {α : Type} (_old : Option (EvalFile α)) (r : EvalRec α) : Option (EvalFile α) := some (saveEval r)
+
+def savesTo {α : Type} (p : Option (EvalFile α)) (rs : List (EvalRec α)) : Option (EvalFile α) := rs.foldl savePath p
+
+def loadPath {α : Type} (p : Option (EvalFile α)) : Except Err (EvalRec α) :=
+  match p with
+  | none => .error .other          -- FileNotFoundError
+  | some f => loadEval f
+
+/-- do two files have datasets of the same shapes (what `require_dataset` compares)? -/
+def EvalFile.sameLayout {α : Type} (f g : EvalFile α) : Bool :=
+  f.K == g.K && f.preds.length == g.preds.length && f.obs.length == g.obs.length && f.chains.length == g.chains.length
+    && f.names.width == g.names.width && f.names.cells.length == g.names.cells.length
+
+/-- REGRESSION definition (seeded change S7-C20, NOT in /repo): the path is opened in append mode and
+    every dataset goes through `require_dataset`, which hands back the EXISTING dataset when shape and
+    dtype agree (the new data are not written) and raises -- leaving the old file -- when they do not -/
+def savePathKeep {α : Type} (old : Option (EvalFile α)) (r : EvalRec α) : Option (EvalFile α) :=
+  match old with
+  | none => some (saveEval r)
+  | some f => some f
+
+def savesKeep {α : Type} (p : Option (EvalFile α)) (rs : List (EvalRec α)) : Option (EvalFile α) := rs.foldl savePathKeep p
+
 /-! ### single-agent effects (`data.py:148-228`) -/
 
 /-- `np.sort(row)[-1]` of a non-empty row -/
@@ -283,6 +313,26 @@ def blissDef (E : Int → Int → Option α) (r : Int × List Int × α) : Optio
   else none
 
 end effects
+
+/-! #### regression definitions (seeded changes, NOT in /repo) -/
+
+/-- S6-C20: `mse()` rewritten as the unweighted mean of the per-chain MSEs (`labels` = the distinct chain labels) -/
+def mseChainMeans {α : Type} [Add α] [Sub α] [Mul α] [Div α] [OfNat α 0] [OfCount α]
+    (preds : List (List α)) (obs : List α) (chains labels : List Int) : α :=
+  mean (labels.map (chainMse preds obs chains))
+
+/-- S5-C20: the "all single-agent effects available?" decision of `calculate_synergy` kept in a flag
+    that is reassigned for every treatment of the row, i.e. remembers only the LAST one (lenient mode) -/
+def lastFlagStep {α : Type} (map : List ((Int × Int) × α)) (s : Int) (st : Bool × List α) (t : Int) : Bool × List α :=
+  match map.lookup (s, t) with
+  | none => (false, st.2)
+  | some e => (true, st.2 ++ [e])
+
+def synergyStepLastFlag {α : Type} [Sub α] [Mul α] [OfNat α 1] (map : List ((Int × Int) × α))
+    (acc : List (Int × List Int × α)) (r : Int × List Int × α) : List (Int × List Int × α) :=
+  let cur := r.2.1.filter (fun t => t != -1)
+  let st := cur.foldl (lastFlagStep map r.1) (true, [])
+  if st.1 then acc ++ [(r.1, cur, prodL st.2 - r.2.2)] else acc
 
 /-! ### the combinatoric space and the between-sample similarity matrix -/
 
